@@ -38,6 +38,11 @@ ExpOperands == {<<49, 101, 49>>, <<53, 69, 45, 49>>, <<49, 69, 43, 49>>}
 ExpCrits == {Txt(p \o o) : p \in Prefixes, o \in ExpOperands}
 VE == {Whole(10), Rat(1, 2), Whole(0), Whole(11), Txt(<<49, 101, 49>>), Txt(abc)}
 
+\* text operands with brackets are plain text (no character classes): a[b]
+BrText == <<97, 91, 98, 93>>
+BrCrits == {Txt(p \o BrText) : p \in {<<>>, <<61>>, <<60, 62>>}}
+VB == {Txt(BrText), Txt(<<97, 98>>), Txt(<<97>>), Whole(1)}
+
 \* a few criteria for the multi-column functions:  >0  <>abc  b  <=1  1  <b  <-1
 CF  == {Txt(<<62, 48>>), Txt(<<60, 62>> \o abc), Txt(<<b_>>), Txt(<<60, 61, 49>>), Whole(1),
         Txt(<<60, b_>>), Txt(<<60, 45, 49>>)}
@@ -75,6 +80,7 @@ InitCase ==
   \/ \E k \in 1..MaxCol : \E c \in [1..k -> V], cr \in Crits :
         (k < 4 \/ Keep(c, cr)) /\ case = C("COUNTIF", <<ColArr(c), cr>>)
   \/ \E k \in 1..2 : \E c \in [1..k -> VE], cr \in ExpCrits : case = C("COUNTIF", <<ColArr(c), cr>>)
+  \/ \E k \in 1..3 : \E c \in [1..k -> VB], cr \in BrCrits : case = C("COUNTIF", <<ColArr(c), cr>>)
   \/ \E c \in [1..4 -> V2], cr \in Crits :
         case = C("COUNTIF", <<Arr(<<<<c[1], c[2]>>, <<c[3], c[4]>>>>), cr>>)
   \* --- COUNTIFS with 1, 2, 3 criteria columns
